@@ -262,6 +262,52 @@ func c08EndToEnd(a *selAST) (sig, what string) {
 	return "", ""
 }
 
+type c08Chain struct {
+	ast    *selAST
+	kind   string
+	bottom string
+	n      int
+}
+
+// c08Chains: for every unary clause kind (and union/fields with a harmless
+// sibling, and bounded recursion), chains of length 1..max ending in a
+// recursion with limit none / 101 / 100.
+func c08Chains(max int) []c08Chain {
+	var out []c08Chain
+	ae := func() *selAST { return &selAST{K: "a", Kids: []*selAST{{K: "@"}}} }
+	bottoms := map[string]func() *selAST{
+		"Rnone": func() *selAST { return &selAST{K: "R", Limit: -1, Kids: []*selAST{ae()}} },
+		"R101":  func() *selAST { return &selAST{K: "R", Limit: 101, Kids: []*selAST{ae()}} },
+		"R100":  func() *selAST { return &selAST{K: "R", Limit: 100, Kids: []*selAST{ae()}} },
+	}
+	wrap := map[string]func(in *selAST) *selAST{
+		"a": func(in *selAST) *selAST { return &selAST{K: "a", Kids: []*selAST{in}} },
+		"f": func(in *selAST) *selAST { return &selAST{K: "f", Kids: []*selAST{in}} },
+		"i": func(in *selAST) *selAST { return &selAST{K: "i", Kids: []*selAST{in}} },
+		"r": func(in *selAST) *selAST { return &selAST{K: "r", Kids: []*selAST{in}} },
+		"~": func(in *selAST) *selAST { return &selAST{K: "~", Kids: []*selAST{in}} },
+		"|": func(in *selAST) *selAST { return &selAST{K: "|", Kids: []*selAST{{K: "."}, in}} },
+		"f2": func(in *selAST) *selAST { return &selAST{K: "f2", Kids: []*selAST{in, {K: "."}}} },
+		"R7": func(in *selAST) *selAST { return &selAST{K: "R", Limit: 7, Kids: []*selAST{{K: "|", Kids: []*selAST{ae(), in}}}} },
+	}
+	for _, wk := range []string{"a", "f", "i", "r", "~", "|", "f2", "R7"} {
+		for _, bk := range []string{"Rnone", "R101", "R100"} {
+			for n := 1; n <= max; n++ {
+				// dense up to 40, then every 7th length
+				if n > 40 && n%7 != 0 {
+					continue
+				}
+				cur := bottoms[bk]()
+				for i := 0; i < n; i++ {
+					cur = wrap[wk](cur)
+				}
+				out = append(out, c08Chain{cur, wk, bk, n})
+			}
+		}
+	}
+	return out
+}
+
 type c08Case struct {
 	Depth int  `json:"depth"`
 	Index int  `json:"index"`
@@ -291,6 +337,28 @@ func runC08(c *core.Ctx) {
 		c.Class(fmt.Sprintf("e2e bad=%v interpretAs=%v", a.bad(), a.hasKind("~")))
 		if sig != "" {
 			c.Violate(sig, what, c08Case{3, di, true, a.String()})
+		}
+	}
+	// deep chains: a recursion at the bottom of 1..maxChain nested unary clauses of one kind
+	maxChain := 150
+	if c.Thorough() {
+		maxChain = 400
+	}
+	for _, a := range c08Chains(maxChain) {
+		idx++
+		if !c.Mine(idx) {
+			continue
+		}
+		sig, what, wf := c08Validate(a.ast)
+		if !wf {
+			c.Count("ill_formed_skipped", 1)
+			continue
+		}
+		c.Res.Evaluations++
+		c.Count("deep_chain_specs", 1)
+		c.Class(fmt.Sprintf("chain bad=%v kind=%s deep=%v", a.ast.bad(), a.kind, a.n > 30))
+		if sig != "" {
+			c.Violate(sig+"/deep-nesting", fmt.Sprintf("chain of %d nested %q clauses over %s: %s", a.n, a.kind, a.bottom, strings.SplitN(what, " contains", 2)[len(strings.SplitN(what, " contains", 2))-1]), c08Case{Depth: a.n, Spec: a.kind + "/" + a.bottom, Index: -1})
 		}
 	}
 	all := c08Gen(depth, memo)
@@ -325,13 +393,25 @@ func init() {
 	d := harness.Build(harness.Shape{Blocks: []harness.BlockSpec{{}}}, "stop")
 	c08StopLink = d.Root
 	core.Register(&core.Prop{ID: "C08", Level: "exploration",
-		Rule:        "every selector spec of the grammar {matcher, explore-all, explore-fields(1,2 fields), explore-index, explore-range, explore-union(2), explore-recursive(limit none|1|100|101|2^31, with/without stop-at), recursive-edge, interpret-as} nested to the stated depth (binary kinds: one child of full depth, the other from a fixed 7-element set, both orders), kept iff go-ipld-prime's ParseSelector accepts it; validator verdict compared with the reference predicate; all well-formed specs of depth<=3 additionally sent to a real responder with default options and the wire status compared; a class is a distinct (bad, interpret-as, union, nested-recursion) combination",
+		Rule:        "(a) chains of 1..150 (thorough 400) nested clauses of each kind over a recursion with limit none/101/100; (b) every selector spec of the grammar {matcher, explore-all, explore-fields(1,2 fields), explore-index, explore-range, explore-union(2), explore-recursive(limit none|1|100|101|2^31, with/without stop-at), recursive-edge, interpret-as} nested to the stated depth (binary kinds: one child of full depth, the other from a fixed 7-element set, both orders), kept iff go-ipld-prime's ParseSelector accepts it; validator verdict compared with the reference predicate; all well-formed specs of depth<=3 additionally sent to a real responder with default options and the wire status compared; a class is a distinct (bad, interpret-as, union, nested-recursion) combination",
 		Assumptions: []string{"well-formed = accepted by go-ipld-prime v0.24.0 ParseSelector (explore-conditional is not parseable there)", "reference predicate: some explore-recursive has limit none or depth > 100"},
 		Run:         runC08, QuickBudget: 240, ThoroughBudget: 1800,
 		Replay: func(raw json.RawMessage) string {
 			var cs c08Case
 			if err := json.Unmarshal(raw, &cs); err != nil {
 				return err.Error()
+			}
+			if cs.Index < 0 {
+				for _, ch := range c08Chains(cs.Depth) {
+					if ch.n == cs.Depth && ch.kind+"/"+ch.bottom == cs.Spec {
+						sig, what, _ := c08Validate(ch.ast)
+						if sig == "" {
+							return "ok"
+						}
+						return sig + ": " + what[:min(len(what), 300)]
+					}
+				}
+				return "chain not found"
 			}
 			all := c08Gen(cs.Depth, map[int][]*selAST{})
 			if cs.Index >= len(all) {
